@@ -76,7 +76,7 @@ def isReservedVerilogKeyword(str):
                 'xor','xnor']
 
     reserved2001 = ['automatic',
-                    'cell','config',
+                    'cell','config','design',
                     'endconfig','endgenerate',
                     'generate','genvar',
                     'incdir','include','instance',
@@ -84,7 +84,8 @@ def isReservedVerilogKeyword(str):
                     'noshowcancelled',
                     'pulsestyle_ondetect','pulsestyle_onevent',
                     'showcancelled','signed',
-                    'unsigned','use' ]
+                    'unsigned','use',
+                    'uwire' ] # uwire was added in 1364-2005
 
 
     reservedSV = ['accept_on','alias','always_comb','always_ff','always_latch','assert','assume',
@@ -103,7 +104,7 @@ def isReservedVerilogKeyword(str):
                   'rand','randc','randcase','randsequence','ref','reject_on','restrict','return',
                   's_always','s_eventually','s_nexttime','s_until','s_until_with','shortint','shortreal','sequence','solve','static','string','strong','struct','super','sync_accept_on','sync_reject_on',
                   'tagged','this','throughout','timeprecision','timeunit','type','typedef',
-                  'union','unique','unique0','until','until_with','untypted',
+                  'union','unique','unique0','until','until_with','untyped','untypted',
                   'var','virtual','void','wait_order','weak','wildcard','with','within']
 
     if (str in reserved95):
